@@ -155,6 +155,7 @@ type Violation struct {
 type World struct {
 	Seed      uint64
 	Serial    bool // one delivery per step (true) or several concurrently (false)
+	NonFIFO   bool // links may reorder (default: reliable FIFO per direction)
 	MaxConc   int
 	Nodes     map[uint16]*Node
 	Links     map[[2]uint16]*Link
@@ -455,8 +456,26 @@ func (w *World) BusyLinks() int {
 }
 
 func (w *World) deliver(l *Link) {
-	m := l.Q[0]
-	l.Q = l.Q[1:]
+	idx := 0
+	if w.NonFIFO && len(l.Q) > 1 {
+		// an application that dispatches every incoming message on its own goroutine gives no per-link order:
+		// pick any queued message of the link (a pure function of seed, link and position)
+		// (protocol traffic only: the membership synchroniser re-sends its view periodically and keeps the latest
+		// one per member, which presumes that a link does not deliver an older view after a newer one)
+		run := 0
+		for run < len(l.Q) && l.Q[run].Type == uint8(tss.MsgTypeMPC) {
+			run++
+		}
+		r := prng.Derive(w.Seed, "nonfifo/"+l.Key()+"/"+strconv.Itoa(l.Popped))
+		if run > 1 && r.Bool(0.5) {
+			idx = r.Intn(run)
+			if idx > 0 {
+				w.Probes["link-reordering"]++
+			}
+		}
+	}
+	m := l.Q[idx]
+	l.Q = append(l.Q[:idx:idx], l.Q[idx+1:]...)
 	l.Popped++
 	dst := w.Nodes[m.To]
 	if dst == nil || dst.Down {
